@@ -862,6 +862,10 @@ def check_divisibility(facts, rep):
         rep.ok('E8.F10-divisibility', inst, 'min(filter_map(div))')
     elif len(r) == 1 and re.match(r'(max|last|next|sum)\(filter_map\(iter\(arg1\), closure<\{closure#0\}>\)\)$', r[0]):
         rep.violation('E8.F10-divisibility', inst, 'div_vec takes %s instead of the minimum: a class is divisible by c^k only if *every* coordinate is' % r[0].split('(')[0], where=need[1].where())
+    elif _divvec_loop(facts, need[1]) is True:
+        rep.ok('E8.F10-divisibility', inst, 'running minimum over the coordinates with div(a, c) = Some(k), folded by value')
+    elif _divvec_loop(facts, need[1]) is False:
+        rep.violation('E8.F10-divisibility', inst, 'the loop of div_vec does not keep the minimum of the divisibilities: a class is divisible by c^k only if *every* coordinate is', where=need[1].where())
     else:
         rep.indet('E8.F10: div_vec outside the recognised fragment: %s / %s' % (r, clo))
     # D3: every div_vec site of compute_div, in a closure (r, c captured) or in its own body (r decided by `reduced` on the path)
@@ -910,6 +914,59 @@ def check_divisibility(facts, rep):
         rep.ok('E8.F10-divisibility', inst, 'subvec(0..r), all_equal, ds[0]')
     else:
         rep.indet('E8.F10: compute_div outside the recognised fragment: %s / %s / %s' % (sorted(got, key=str), sorted(rv, key=str), rr))
+
+
+def _divvec_loop(facts, body):
+    """div_vec written as a loop with a running Option<i32>: folded over (state, divisibility of the next coordinate);
+    True / False / None (not read)"""
+    from dtree import DTree, Stuck
+    try:
+        hp = SymEx(body, havoc_loops=True, max_paths=4000).run()
+    except Exception:
+        return None
+    rets = [p for p in hp if p.end == 'return']
+    back = [p for p in hp if p.end == 'backedge']
+    if not back or not rets or not all(strip(p.ret)[0] == 'loopvar' for p in rets):
+        return None
+    L = strip(rets[0].ret)[2]
+    ent = set()
+    src = set()
+    for p in hp:
+        for (fid, bb_, l), v in p.state.loop_entry.items():
+            if fid == 0 and l == L and strip(v)[0] != 'loopvar':
+                ent.add(sk(v))
+            if fid == 0 and strip(v)[0] == 'call' and strip(v)[1].endswith('into_iter'):
+                src.add(sk(v).replace('&', '').replace('*', ''))
+    if ent != {'Option::None{}'} or src != {'into_iter(iter(arg1))'}:
+        return None
+    dt = DTree(facts)
+    paths = [([(e.term, e.value, e.args) for e in p.branches() if not (e.name or '').startswith('assert:') and not sk(e.term).startswith('discr(next(')], None, p) for p in back]
+
+    def opt(x):
+        return {'<variant>': 0} if x is None else {'<variant>': 1, 'Some.0': x}
+    try:
+        for m in (None, 1, 3):
+            for k in (None, 0, 2, 3, 5):
+                def atom(t, ev, m=m, k=k):
+                    if t[0] == 'loopvar' and t[2] == L:
+                        return (opt(m),)
+                    if t[0] == 'call' and t[1].endswith('misc::div') and len(t[2]) == 2:
+                        return (opt(k),)
+                    if t[0] == 'call' and t[1].split('::')[-1] in ('le', 'lt', 'ge', 'gt', 'min', 'max') and len(t[2]) == 2:
+                        a_, b_ = ev(t[2][0]), ev(t[2][1])
+                        n_ = t[1].split('::')[-1]
+                        return ({'le': int(a_ <= b_), 'lt': int(a_ < b_), 'ge': int(a_ >= b_), 'gt': int(a_ > b_), 'min': min(a_, b_), 'max': max(a_, b_)}[n_],)
+                    return None
+                _, p = dt.decide_paths(paths, {}, atom, what='the loop of div_vec', want_ret=False)
+                fin = dt.ev(p.mem.get((('local', L), ()), ('loopvar', 0, L)), {}, atom)
+                got = None if (isinstance(fin, dict) and fin.get('<variant>') in (0, 'None')) else (fin.get('Some.0', fin.get('0')) if isinstance(fin, dict) else fin)
+                want = m if k is None else (k if m is None else min(m, k))
+                if got != want:
+                    return False
+    except (Stuck, KeyError, TypeError):
+        return None
+    return True
+
 
 
 def check_koszul_sign(facts, rep):
